@@ -6,8 +6,7 @@
    reachable from the trailer, is isomorphic (via phi) to g restricted to what is reachable from
    the trailer, up to the documented normalisations; hence the same page sequence, attributes,
    info dict.  It is REFUTED for pdfcpu as it is (C19_no_loss_refuted_*: objects referenced only
-   from entries the writer does not list, or only from an undecoded object stream member, are
-   dropped), and proved in the three parts below:
+   from entries the writer does not list are dropped), and proved in the three parts below:
      (A) what is read back is exactly what the writer emitted, up to phi      [all documents]
      (B) what the writer emitted is the original object, up to the documented normalisations
                                                                                [all documents]
@@ -108,20 +107,23 @@ Theorem C19_generic_follows_all :
 Proof. exact wrefs_values_nopages_all. Qed.
 Print Assumptions C19_generic_follows_all.
 
-(* nothing reachable is lost: under the negation of the defect classes (every reference of every
-   emitted object sits where the writer follows it; no unvalidated page dict is referenced) the
-   emitted graph is closed, and its unfoldings are those of the original table with the
-   normalised objects in place *)
+(* nothing reachable is lost: under the negation of the defect class (every reference held by
+   a record written as catalog / page tree node / page, or reached while pages are written, sits
+   where the writer follows it; no unvalidated page dict is referenced; the table holds no
+   nested streams or bare references) the emitted graph is closed, and its unfoldings are those
+   of the original table with the normalised objects in place.  Records written outside page
+   writing (MGen false false) need no hypothesis: undecoded object stream members included. *)
 Theorem C19_nothing_lost_partial :
   forall g maxd fuel delv root info s,
   write_model g maxd fuel delv root info = WOk s ->
-  (forall n r, In (n, r) s -> incl (refs (snd r)) (followed r)) ->
+  (forall n o, In (n, (MGen false false, o)) s -> wfobj o = true) ->
+  (forall n md o, In (n, (md, o)) s -> md <> MGen false false -> incl (refs o) (followed (md, o))) ->
   (forall m, ~ refused g m) ->
   closed s /\
   forall d o, incl (refs o) (dom s) -> unfold (rfind s) d o = unfold (ntbl g s) d o.
 Proof.
-  intros g maxd fuel delv root info s H Hall Href.
-  assert (Hc : closed s) by exact (followed_all_closed g delv maxd fuel root info s H Hall Href).
+  intros g maxd fuel delv root info s H Hwf Hsp Href.
+  assert (Hc : closed s) by exact (special_followed_closed g delv maxd fuel root info s H Hwf Hsp Href).
   split; [exact Hc|exact (closed_unfold g s Hc)].
 Qed.
 Print Assumptions C19_nothing_lost_partial.
@@ -143,10 +145,12 @@ Theorem C19_no_loss_refuted_unlisted_page_entry :
 Proof. exact witness_unlisted_page. Qed.
 Print Assumptions C19_no_loss_refuted_unlisted_page_entry.
 
-Theorem C19_no_loss_refuted_lazy_objstream_member :
-  dangling_of (run (doc [(kMetadata, ORef 6)] FLazy)) = [7%N].
-Proof. exact witness_lazy. Qed.
-Print Assumptions C19_no_loss_refuted_lazy_objstream_member.
+(* an object stream member that validation never decoded no longer loses what it references
+   (fixed in pdfcpu 606427ef; the oracle class stays armed) *)
+Theorem C19_undecoded_objstream_member_followed :
+  dangling_of (run (doc [(kMetadata, ORef 6)] FInvalid)) = [].
+Proof. exact witness_undecoded_member. Qed.
+Print Assumptions C19_undecoded_objstream_member_followed.
 
 (* ---------- the key lists regenerated from the source ---------- *)
 Theorem C19_listed_keys_cover_iso32000_1 :
